@@ -10,7 +10,7 @@ theorem Conserve.tick {s : State} (c : Conserve s) (n : Nat) : Conserve { s with
 
 macro "cons_simp" h:ident : tactic => `(tactic|
   simp only [State.setOp, State.emit, arriveRecycle, handOut, arrivePostCreate, failPermit,
-    finishResize, returnResize, sumW_set' _ _ $h, Op.heldCnt, Op.held, idCnt_append, idCnt_cons,
+    finishResize, sumW_set' _ _ $h, Op.heldCnt, Op.held, idCnt_append, idCnt_cons,
     idCnt_nil, goneCnt_append, goneCnt_cons, goneCnt_nil, detachCnt_append, detachCnt_cons,
     detachCnt_nil, natCnt_cons, natCnt_nil, Ev.goneIds, Ev.detachIds, Nat.add_zero, Nat.zero_add,
     Nat.sub_zero, Bool.false_eq_true, ↓reduceIte] at *)
@@ -79,12 +79,14 @@ theorem stepResize_conserve {s s' : State} {i n old : Nat} {isClose : Bool} {pc 
     refine ⟨fun id => ?_, fun id => ?_⟩
     · have p := c.place id
       have b := sumW_mem_le (Op.heldCnt id) _ _ _ h
+      have e := drainEvs_counts i s.idle id
       try (have il := congrArg (idCnt id) ‹s.idle = _ :: _›)
       first
-        | (cons_simp h; omega)
+        | (cons_simp h <;> omega)
         | (cons_simp h; simp only [idCnt] at *; omega)
     · have p := c.detach id
-      cons_simp h; omega)
+      have e := drainEvs_counts i s.idle id
+      cons_simp h <;> omega)
 
 theorem stepRetain_conserve {s s' : State} {i : Nat} {keep : List Bool}
     (h : s.ops[i]? = some (.retain keep)) (c : Conserve s)
